@@ -46,7 +46,7 @@ def main():
             if args.props == "all":
                 props = ["C%02d" % i for i in range(1, 20)]
             else:
-                props = meta.get("caught_by") or meta.get("breaks") or []
+                props = sorted(set((meta.get("breaks") or []) + (meta.get("also_try") or [])))
             for prop in props:
                 cmd = [os.path.join(VERIF, "check"), prop, "--tier", args.tier, "--seed", str(args.seed)]
                 if args.examples:
